@@ -55,3 +55,58 @@ func (c *Ctx) IMMDerive(rule string) []report.Obligation {
 }
 
 var _ = types.Identical
+
+// IMMGraph: the traversal entry points do not write through the *Project argument (TRV-9).
+func (c *Ctx) IMMGraph(rule string) []report.Obligation {
+	var ts []immTarget
+	for _, f := range c.P.ExportedFuncs("graph") {
+		if i := c.projectParam(f); i >= 0 {
+			ts = append(ts, immTarget{Fn: f, Src: i, WhatSrc: "the project argument"})
+		}
+	}
+	if len(ts) == 0 {
+		return []report.Obligation{anchorViolation(rule, "exported functions of package graph taking a *types.Project")}
+	}
+	return c.IMM(rule, ts)
+}
+
+// IMMRender: the project renderers do not modify the project.
+func (c *Ctx) IMMRender(rule string) []report.Obligation {
+	var ts []immTarget
+	for _, id := range []string{"types.(*Project).MarshalYAML", "types.(*Project).MarshalJSON"} {
+		f := c.P.Func(id)
+		if f == nil {
+			return []report.Obligation{anchorViolation(rule, id)}
+		}
+		ts = append(ts, immTarget{Fn: f, Src: 0, WhatSrc: "the project being rendered"})
+	}
+	return c.IMM(rule, ts)
+}
+
+// Only keeps the obligations whose construct key starts with one of the prefixes.
+func Only(obs []report.Obligation, prefixes ...string) []report.Obligation {
+	var out []report.Obligation
+	for _, o := range obs {
+		for _, p := range prefixes {
+			if len(o.Key) >= len(p) && o.Key[:len(p)] == p || o.Status == report.Violation && len(o.Key) > 7 && o.Key[:7] == "anchor " {
+				out = append(out, o)
+				break
+			}
+		}
+	}
+	return out
+}
+
+// OnlyRule keeps the obligations of the given rule ids (anchor failures are kept).
+func OnlyRule(obs []report.Obligation, rules ...string) []report.Obligation {
+	var out []report.Obligation
+	for _, o := range obs {
+		for _, r := range rules {
+			if o.Rule == r || (o.Status == report.Violation && len(o.Key) > 7 && o.Key[:7] == "anchor ") {
+				out = append(out, o)
+				break
+			}
+		}
+	}
+	return out
+}
